@@ -79,7 +79,31 @@ class Builder:
             ts = nxt + ([ts[-1]] if len(ts) % 2 else [])
         return ts[0], d
 
+    def dag(self, n, seed):
+        """random DAG of n binary elementwise ops over the leaf and earlier nodes (operands drawn with a bias to recent nodes, so that
+        intermediates are shared by several consumers in every order); the derivative is carried along in forward mode"""
+        import random
+        rng = random.Random(seed)
+        np = self.np
+        half = self.sg.tensor([0.5, 0.5, 0.5], dtype=np.float64)
+        nodes = [(self.leaf, np.ones(3))]
+        for _ in range(n):
+            pick = lambda: nodes[max(0, len(nodes) - 1 - int(rng.random() ** 2 * min(len(nodes), 6)))] if rng.random() < 0.8 else nodes[rng.randrange(len(nodes))]
+            (a, da), (b, db) = pick(), pick()
+            k = rng.random()
+            if k < 0.45:
+                y, d = a + b, da + db
+            elif k < 0.9:
+                y, d = a * b, da * b.data + a.data * db
+            else:
+                y, d = a * half, da * 0.5
+            nodes.append((y, d))
+        self.ops_built = n
+        return nodes[-1]
+
     def build(self, family, n):
+        if family.startswith("dag"):
+            return self.dag(n, int(family[3:] or 0))
         if family == "chain":
             return self.chain(self.leaf, n)
         if family == "ladder":
@@ -112,6 +136,8 @@ def backward_once(family, n, count=True):
     b = Builder()
     root, expected = b.build(family, n)
     fns = recorded_ops(root)
+    if family.startswith("dag"):
+        b.ops = len(fns)                            # only the ops reachable from the root are part of the differentiable graph
     res = {"family": family, "n": n, "constructed_ops": b.ops, "recorded_ops": len(fns), "recursion_limit": sys.getrecursionlimit()}
     calls = {}
     orig = BackwardFunction.__call__
@@ -142,8 +168,31 @@ def backward_once(family, n, count=True):
                        ops_never_called=len(set(fns) - set(calls)), calls_to_unrecorded=len(set(calls) - set(fns)))
         g = b.leaf._grad
         res["grad"], res["expected"] = (None if g is None else g.tolist()), expected.tolist()
-        res["grad_rel_err"] = None if g is None else float(np.max(np.abs(g - expected) / np.abs(expected)))
+        res["grad_rel_err"] = None if g is None else float(np.max(np.abs(g - expected) / np.maximum(np.abs(expected), 1e-300)))
     return res
+
+
+def job_dags(spec):
+    """many small random DAGs in one child: returns only the failing ones (and the count)"""
+    import numpy as np
+    bad, n_ok = [], 0
+    for sd in range(spec["first_seed"], spec["first_seed"] + spec["count"]):
+        n = 3 + sd % spec.get("max_ops", 10)
+        r = backward_once("dag%d" % sd, n)
+        fail = None
+        if not r.get("completed"):
+            fail = "backward raised %s: %s" % (r.get("exception"), r.get("message"))
+        elif r["calls_total"] != r["recorded_ops"] or r["calls_max_per_op"] > 1 or r["ops_never_called"] or r["calls_to_unrecorded"]:
+            fail = "%d recorded ops, %d grad_fn invocations (max per op %d, never called %d)" % (r["recorded_ops"], r["calls_total"], r["calls_max_per_op"], r["ops_never_called"])
+        elif r["grad"] is None or not np.all(np.isfinite(r["expected"])):
+            fail = "leaf has no gradient" if r["grad"] is None else None
+        elif not r["grad_rel_err"] <= 1e-9:
+            fail = "leaf gradient %s, forward-mode derivative %s" % (r["grad"], r["expected"])
+        if fail:
+            bad.append({"seed": sd, "ops": n, "what": fail, "result": r})
+        else:
+            n_ok += 1
+    return {"ok": n_ok, "bad": bad[:20], "n_bad": len(bad)}
 
 
 def job_graph(spec):
@@ -185,14 +234,25 @@ def untracked_loop(mode, length):
     import synapgrad as sg
     gc.collect()
     base = live_tensors()
-    track = mode == "no_grad"
+    track = mode.startswith("no_grad")
     w = sg.tensor([1.0, 2.0, 3.0], requires_grad=track)
     g = sg.tensor([0.5, -0.5, 0.25], requires_grad=track)
     w0, refs = w.data.copy(), []
-    with (sg.no_grad() if track else nullcontext()):
-        for _ in range(length):
-            refs.append(weakref.ref(w))
-            w = w - 0.1 * g
+    if mode == "no_grad_reused":
+        # a stored no_grad object (built while tracking was on) re-used inside an open no_grad block: everything up to the end of the
+        # OUTER block is untracked
+        ng = sg.no_grad()
+        with sg.no_grad():
+            for _ in range(length):
+                refs.append(weakref.ref(w))
+                with ng:
+                    w = w - 0.05 * g
+                w = w - 0.05 * g
+    else:
+        with (sg.no_grad() if track else nullcontext()):
+            for _ in range(length):
+                refs.append(weakref.ref(w))
+                w = w - 0.1 * g
     gc.collect()
     alive = sum(1 for r in refs if r() is not None)
     res = {"mode": mode, "loop": length, "operands_alive": alive, "live_tensors_added": live_tensors() - base,
@@ -240,7 +300,7 @@ def run_job(spec, timeout=240):
 
 if __name__ == "__main__":
     spec = json.loads(sys.argv[1])
-    result = job_graph(spec) if spec["kind"] == "graph" else job_untracked(spec)
+    result = job_graph(spec) if spec["kind"] == "graph" else (job_dags(spec) if spec["kind"] == "dags" else job_untracked(spec))
     print("RESULT " + json.dumps(result), flush=True)
     sys.stdout.flush()
     os._exit(0)          # skip interpreter teardown of very deep object graphs; the result is already written
